@@ -417,7 +417,22 @@ func c24Build(r *simkit.R, w *pvWorld, cx *c24Ctx, shape int, size int, mutate b
 			foreign = true
 			u.mut, u.open = "session bound to another container", true
 		}
-		o.SetSessionToken(c24Token(r, w, issuer, tokSign, auth, verb, exp, foreign))
+		tok := c24Token(r, w, issuer, tokSign, auth, verb, exp, foreign)
+		if m == 16 && w.lastTok != nil && r.Bool(60) {
+			// the twin of a token this node has already authenticated: same body, signature by a
+			// stranger (a check-result cache must not conflate the two)
+			twin := *w.lastTok
+			if err := twin.SetSignature(neofsecdsa.SignerRFC6979(*pvKey(pvKeyStranger))); err != nil {
+				r.Failf("infra", "token-sign", "%v", err)
+			}
+			tok = &twin
+			u.mut = "session token signed by a key that is not its issuer's (twin of an authenticated token)"
+			r.Probe("twin of an already authenticated session token uploaded")
+		}
+		if m == 0 {
+			w.lastTok = tok
+		}
+		o.SetSessionToken(tok)
 		signK = pvKeyClientSK
 	case c24Child:
 		par := object.New(w.cnrID, pvUser(owner))
